@@ -432,49 +432,79 @@ Section WalkFacts.
 
   Lemma rbind_ret {A} (x : res A) : (r <- x ;; Ok r) = x.
   Proof. destruct x; reflexivity. Qed.
-  Lemma ext_spec x : In x (ids t) ->
-    (if is_tag x then w_iterate_children ftrue ftrue x else Ok []) = Ok (a_children t x).
+  Lemma ext_spec D x : In x (ids t) ->
+    (if is_tag x then w_iterate_children D ftrue x else Ok []) = Ok (vis_children t D x).
   Proof.
-    intros Hx. destruct (is_tag x) eqn:E; [|rewrite (Hleaf x Hx E); reflexivity].
-    rewrite (children_spec ftrue ftrue x Hx), (filter_all _ _ (fun y => eq_refl)). reflexivity.
+    intros Hx. unfold vis_children. destruct (is_tag x) eqn:E; [|rewrite (Hleaf x Hx E); reflexivity].
+    rewrite (children_spec D ftrue x Hx), filter_fand_ftrue. reflexivity.
   Qed.
-  Lemma bf_loop_nil fuel F : 0 < fuel -> bf_loop first_raw next_raw is_tag fc fuel ftrue F [] = Ok [].
+  Lemma bf_loop_nil fuel D F : 0 < fuel -> bf_loop first_raw next_raw is_tag fc fuel D F [] = Ok [].
   Proof. destruct fuel; [lia|reflexivity]. Qed.
-  Lemma bf_shift F : forall L fuel M, (forall x, In x L -> In x (ids t)) ->
-    bf_loop first_raw next_raw is_tag fc (length L + fuel) ftrue F (L ++ M) =
-    (r <- bf_loop first_raw next_raw is_tag fc fuel ftrue F (M ++ CH t L) ;; Ok (filter F L ++ r)).
+  (* the queue: the rest of the current level, then the visible children of the nodes already taken from it *)
+  Lemma bf_shift D F : forall L fuel M, (forall x, In x L -> In x (ids t)) ->
+    bf_loop first_raw next_raw is_tag fc (length L + fuel) D F (L ++ M) =
+    (r <- bf_loop first_raw next_raw is_tag fc fuel D F (M ++ flat_map (vis_children t D) L) ;; Ok (filter F L ++ r)).
   Proof.
     induction L as [|x L' IH]; intros fuel M HL.
-    - cbn [length plus app CH flat_map filter]. rewrite app_nil_r. symmetry. apply rbind_ret.
-    - cbn [length plus app bf_loop]. rewrite (ext_spec x (HL x (or_introl eq_refl))). cbn [rbind].
-      rewrite <- app_assoc. rewrite (IH fuel (M ++ a_children t x)) by (intros y Hy; apply HL; right; exact Hy).
-      unfold CH. cbn [flat_map]. fold (CH t L'). rewrite <- app_assoc.
-      destruct (bf_loop first_raw next_raw is_tag fc fuel ftrue F (M ++ a_children t x ++ CH t L')); cbn [rbind filter]; try reflexivity.
+    - cbn [length plus app flat_map filter]. rewrite app_nil_r. symmetry. apply rbind_ret.
+    - cbn [length plus app bf_loop]. rewrite (ext_spec D x (HL x (or_introl eq_refl))). cbn [rbind].
+      rewrite <- app_assoc. rewrite (IH fuel (M ++ vis_children t D x)) by (intros y Hy; apply HL; right; exact Hy).
+      cbn [flat_map]. rewrite <- app_assoc.
+      destruct (bf_loop first_raw next_raw is_tag fc fuel D F (M ++ vis_children t D x ++ flat_map (vis_children t D) L')); cbn [rbind filter]; try reflexivity.
       destruct (F x); reflexivity.
   Qed.
-  Lemma CH_in L : (forall x, In x L -> In x (ids t)) -> forall y, In y (CH t L) -> In y (ids t).
-  Proof. intros _ y Hy. unfold CH in Hy. apply in_flat_map in Hy. destruct Hy as [x [_ Hy]]. exact (children_in t x y Hy). Qed.
-  Lemma bf_levels F : forall d L fuel, (forall x, In x L -> In x (ids t)) -> lv t d L = lv t (S d) L ->
-    length (lv t d L) < fuel -> bf_loop first_raw next_raw is_tag fc fuel ftrue F L = Ok (filter F (lv t d L)).
+  Lemma vis_in D L : (forall x, In x L -> In x (ids t)) -> forall y, In y (flat_map (vis_children t D) L) -> In y (ids t).
+  Proof.
+    intros _ y Hy. apply in_flat_map in Hy. destruct Hy as [x [_ Hy]]. unfold vis_children in Hy. apply filter_In in Hy.
+    exact (children_in t x y (proj1 Hy)).
+  Qed.
+  Lemma bf_levels D F : forall d L fuel, (forall x, In x L -> In x (ids t)) ->
+    lvg (vis_children t D) d L = lvg (vis_children t D) (S d) L ->
+    length (lvg (vis_children t D) d L) < fuel ->
+    bf_loop first_raw next_raw is_tag fc fuel D F L = Ok (filter F (lvg (vis_children t D) d L)).
   Proof.
     induction d as [|d IH]; intros L fuel HL Hsat Hf.
-    - cbn [lv] in Hsat. rewrite app_nil_r in Hsat. subst L. apply bf_loop_nil. cbn in Hf. lia.
-    - change (lv t (S d) L) with (L ++ lv t d (CH t L)) in *. change (lv t (S (S d)) L) with (L ++ lv t (S d) (CH t L)) in Hsat.
+    - cbn [lvg] in Hsat. rewrite app_nil_r in Hsat. subst L. apply bf_loop_nil. cbn in Hf. lia.
+    - change (lvg (vis_children t D) (S d) L) with (L ++ lvg (vis_children t D) d (flat_map (vis_children t D) L)) in *.
+      change (lvg (vis_children t D) (S (S d)) L) with (L ++ lvg (vis_children t D) (S d) (flat_map (vis_children t D) L)) in Hsat.
       apply app_inv_head in Hsat. rewrite app_length in Hf.
-      assert (E : bf_loop first_raw next_raw is_tag fc fuel ftrue F L
-                  = bf_loop first_raw next_raw is_tag fc (length L + (fuel - length L)) ftrue F (L ++ [])).
+      assert (E : bf_loop first_raw next_raw is_tag fc fuel D F L
+                  = bf_loop first_raw next_raw is_tag fc (length L + (fuel - length L)) D F (L ++ [])).
       { rewrite app_nil_r. f_equal. lia. }
-      rewrite E, (bf_shift F L (fuel - length L) [] HL). cbn [app].
-      rewrite (IH (CH t L) (fuel - length L) (CH_in L HL) Hsat) by lia. cbn [rbind]. rewrite filter_app. reflexivity.
+      rewrite E, (bf_shift D F L (fuel - length L) [] HL). cbn [app].
+      rewrite (IH _ (fuel - length L) (vis_in D L HL) Hsat) by lia. cbn [rbind]. rewrite filter_app. reflexivity.
+  Qed.
+  (* under an ambient filter D: level by level through the D-visible children; the passed filters are applied to every
+     node, the given root included *)
+  Theorem traverse_bf_ambient_spec fuel D F n : In n (ids t) -> length (ids t) < fuel ->
+    exists d, lvg (vis_children t D) d (vis_children t D n) = lvg (vis_children t D) (S d) (vis_children t D n)
+      /\ w_traverse_bf first_raw next_raw is_tag fc fuel D F n
+         = Ok ((if F n then [n] else []) ++ filter F (lvg (vis_children t D) d (vis_children t D n))).
+  Proof.
+    intros Hn Hf. destruct (bf_unfold t Hnd n Hn) as [d [E [Hsat _]]]. exists d.
+    rewrite !lv_lvg in Hsat.
+    assert (Hsub : subseq (vis_children t D n) (a_children t n)) by apply subseq_filter.
+    assert (Hgg : forall x, subseq (vis_children t D x) (a_children t x)) by (intros x; apply subseq_filter).
+    pose proof (saturated_subseq _ _ Hgg d _ _ Hsub Hsat) as HsatD. split; [exact HsatD|].
+    unfold w_traverse_bf. rewrite (children_spec D ftrue n Hn), filter_fand_ftrue. cbn [rbind]. fold (vis_children t D n).
+    rewrite (bf_levels D F d (vis_children t D n) fuel).
+    - cbn [rbind]. destruct (F n); reflexivity.
+    - intros x Hx. unfold vis_children in Hx. apply filter_In in Hx. exact (children_in t n x (proj1 Hx)).
+    - exact HsatD.
+    - pose proof (subseq_length _ _ (lvg_subseq _ _ Hgg d _ _ Hsub)) as Hl.
+      pose proof (bf_length_bound t Hnd n Hn) as Hb. rewrite E, lv_lvg in Hb. cbn [length] in Hb. lia.
   Qed.
   Theorem traverse_bf_spec fuel F n : In n (ids t) -> length (ids t) < fuel ->
     w_traverse_bf first_raw next_raw is_tag fc fuel ftrue F n = Ok (filter F (a_bf_ttb t n)).
   Proof.
-    intros Hn Hf. unfold w_traverse_bf. rewrite (children_spec ftrue ftrue n Hn). cbn [rbind].
-    rewrite (filter_all _ _ (fun x => eq_refl)). destruct (bf_unfold t Hnd n Hn) as [d [E [Hsat _]]].
-    pose proof (bf_length_bound t Hnd n Hn) as Hb. rewrite E in Hb |- *. cbn [length] in Hb.
-    rewrite (bf_levels F d (a_children t n) fuel (children_in t n) Hsat) by lia. reflexivity.
+    intros Hn Hf. destruct (bf_unfold t Hnd n Hn) as [d [E [Hsat _]]]. rewrite E.
+    unfold w_traverse_bf. rewrite (children_spec ftrue ftrue n Hn), (filter_all _ _ (fun x => eq_refl)). cbn [rbind].
+    pose proof (bf_length_bound t Hnd n Hn) as Hb. rewrite E in Hb. cbn [length] in Hb.
+    pose proof (lvg_ext _ _ (vis_children_ftrue t)) as Hx.
+    rewrite !lv_lvg in Hsat. rewrite <- !Hx in Hsat. rewrite lv_lvg, <- Hx in Hb. rewrite lv_lvg, <- Hx.
+    rewrite (bf_levels ftrue F d (a_children t n) fuel (children_in t n) Hsat) by lia. reflexivity.
   Qed.
+
   (* ---------------------------------------------------------------- _sort_nodes_in_document_order *)
   Lemma index_path_spec : forall fuel n acc p, In n (ids t) -> rpath n t = Some p -> length (a_ancestors t n) < fuel ->
     index_path first_raw next_raw parent is_tag fc fuel ftrue n acc = Ok (p ++ acc).
@@ -564,5 +594,71 @@ Section WalkFacts.
     destruct (ancestors_split t Hnd a n x b Hn E) as [Hxin [Eb [y [Hy Hpy]]]].
     apply tag_index_spec; [exact Hxin|exact (has_child_is_tag x y Hxin Hy Hpy)|].
     intros Hnone. apply Hb. rewrite Eb, (ancestors_chain t Hnd x Hxin), Hnone. reflexivity.
+  Qed.
+  (* ---------------------------------------------------------------- the sorter under an ambient filter *)
+  Lemma strict_subtree s : In s (subtrees t) -> iid s <> iid t -> In s (flat_map subtrees (ikids t)).
+  Proof.
+    intros Hs Hne. destruct t as [i p kids] eqn:Et. rewrite subtrees_unfold in Hs. destruct Hs as [<-|Hs]; [congruence|exact Hs].
+  Qed.
+  Lemma index_path_specD D n0 : way_visible D n0 t ->
+    forall fuel c sc acc p, In sc (subtrees t) -> iid sc = c -> In n0 (ids sc) -> rpathD D c t = Some p ->
+    length (a_ancestors t c) < fuel ->
+    index_path first_raw next_raw parent is_tag fc fuel D c acc = Ok (p ++ acc).
+  Proof.
+    intros Hw. induction fuel as [|f IH]; intros c sc acc p Hsc Ec Hn0 Hp Hf; [lia|].
+    assert (Hc : In c (ids t)) by (rewrite <- Ec; exact (sub_id_in t sc Hsc)).
+    cbn [index_path]. rewrite (Hparent c Hc). cbn [rbind].
+    rewrite (ancestors_chain t Hnd c Hc) in Hf. destruct (a_parent t c) as [q|] eqn:Hq.
+    - destruct (a_parent_some t c q Hq) as [s [Hs [Eq Hin]]]. destruct (in_split_first c _ Hin) as [l1 [l2 [E Hnot]]].
+      assert (Hvis : D c = true).
+      { rewrite <- Ec. apply Hw; [|exact Hn0]. apply strict_subtree; [exact Hsc|]. rewrite Ec. intros Eroot.
+        rewrite Eroot, (a_parent_root t Hnd) in Hq. discriminate. }
+      rewrite (index_spec D c Hc), Hq, (place_siblings t Hnd s l1 l2 c Hs E), filter_app. cbn [filter]. rewrite Hvis.
+      rewrite index_of_split by (intros Hx; apply filter_In in Hx; tauto). cbn [rbind].
+      destruct (rpathD_kid D t Hnd s l1 c l2 Hs E) as [ps [H1 H2]]. rewrite Hp in H2. injection H2 as ->. subst q.
+      assert (Hsub : In n0 (ids s)).
+      { unfold kid_ids in Hin. apply in_map_iff in Hin. destruct Hin as [k [Ek Hk]].
+        assert (k = sc).
+        { pose proof Hnd as Hnd'. rewrite ids_subtrees in Hnd'.
+          apply (nodup_map_inj iid _ k sc Hnd' (kid_in_subtrees t s k Hs Hk) Hsc). congruence. }
+        subst k. apply (ids_sub_incl s sc); [|exact Hn0].
+        apply (kid_in_subtrees s s sc (self_in_subtrees s) Hk). }
+      rewrite (IH (iid s) s (length (filter D l1) :: acc) ps Hs eq_refl Hsub H1) by (cbn [length] in Hf; lia).
+      rewrite <- app_assoc. reflexivity.
+    - destruct (N.eq_dec c (iid t)) as [->|Hne].
+      + rewrite rpathD_root in Hp. injection Hp as <-. reflexivity.
+      + exfalso. destruct (has_parent t c Hc Hne) as [s [Hs Hk]]. rewrite (a_parent_of_kid t Hnd s c Hs Hk) in Hq. discriminate.
+  Qed.
+  Lemma sort_add_specD D : forall nodes L,
+    (forall n, In n nodes -> In n (ids t) /\ is_tag n = true /\ way_visible D n t) ->
+    sort_add first_raw next_raw parent is_tag fc D nodes (canonD D L t) = Ok (canonD D (rev nodes ++ L) t).
+  Proof.
+    induction nodes as [|n r IH]; intros L H; [reflexivity|]. cbn [sort_add]. destruct (H n (or_introl eq_refl)) as [Hn [Htag Hw]].
+    rewrite Htag. destruct (rpathD_some D n t Hn) as [p Hp]. destruct (a_sub_of_id t Hnd n Hn) as [sn [Hsn [En _]]].
+    assert (Hself : In n (ids sn)) by (rewrite <- En; destruct sn; rewrite ids_unfold; left; reflexivity).
+    rewrite (index_path_specD D n Hw fc n sn [] p Hsn En Hself Hp (ancestors_bound n)). cbn [rbind]. rewrite app_nil_r.
+    rewrite (add_canonD D L n t Hnd Hn Hw p Hp). rewrite (IH (n :: L)) by (intros m Hm; apply H; right; exact Hm).
+    cbn [rev]. rewrite <- app_assoc. reflexivity.
+  Qed.
+  (* if no hidden node below the root holds an offered node, the ambient filter does not change the result *)
+  Theorem sort_ambient_spec D nodes :
+    (forall n, In n nodes -> In n (ids t) /\ is_tag n = true) ->
+    (forall x, In x (flat_map subtrees (ikids t)) -> D (iid x) = false -> forall n, In n nodes -> ~ In n (ids x)) ->
+    w_sort first_raw next_raw parent is_tag fc D nodes = Ok (a_doc_sort t nodes).
+  Proof.
+    intros H Hhid. unfold w_sort.
+    assert (E0 : Trie None [] = canonD D [] t).
+    { symmetry. apply canonD_miss. unfold hits. destruct (existsb (fun x => memb x []) (ids t)) eqn:E; [|reflexivity].
+      apply existsb_exists in E. destruct E as [x [_ Hx]]. discriminate. }
+    rewrite E0, (sort_add_specD D nodes []).
+    - cbn [rbind]. rewrite emit_canonD.
+      + unfold a_doc_sort. f_equal. apply filter_ext. intros i. rewrite app_nil_r. destruct (memb i nodes) eqn:E.
+        * apply memb_In. apply -> in_rev. apply memb_In. exact E.
+        * apply memb_false. intros Hin. apply in_rev in Hin. apply memb_false in E. contradiction.
+      + intros x Hx Hd. unfold hits. destruct (existsb (fun y => memb y (rev nodes ++ [])) (ids x)) eqn:E; [|reflexivity].
+        exfalso. apply existsb_exists in E. destruct E as [m [Hm Hmem]]. apply memb_In in Hmem. rewrite app_nil_r in Hmem.
+        apply in_rev in Hmem. exact (Hhid x Hx Hd m Hmem Hm).
+    - intros n Hn. destruct (H n Hn) as [H1 H2]. split; [exact H1|]. split; [exact H2|].
+      intros x Hx Hin. destruct (D (iid x)) eqn:Ed; [reflexivity|]. exfalso. exact (Hhid x Hx Ed n Hn Hin).
   Qed.
 End WalkFacts.
